@@ -30,7 +30,7 @@ ASSUMPTIONS = [
 SCHEMA = {
     "m": [("api", 7), ("mt", 3), ("fs", progs.N_FS)],
     "a": [
-        ("style", 6),
+        ("style", 8),
         ("typed", 2),
         ("at", 2),
         ("exit", len(progs.EXITS)),
